@@ -33,6 +33,7 @@ type rvRow struct {
 	vRole       string
 	delay       int
 	ok          bool
+	keyless     bool
 	skipped     bool
 	attempts    int
 	errV, errC  string
@@ -139,6 +140,9 @@ func prequeued(i int) (string, bool) {
 	}
 	vResp.DetectBehavior.ListenRandomPorts = 1500
 	key := []byte(fmt.Sprintf("prequeued-%d", i))
+	if i == 0 {
+		key = nil // a key-less pair
+	}
 	// an unfiltered network also delivers strays: datagrams of 20 and 40 junk bytes from a third socket are queued on the
 	// receiver's candidate socket BEFORE the sender's detect message; MakeHole has to skip them (a crash here takes the whole
 	// driver down and is reported as "implementation crashed under driver rendezvous")
@@ -284,7 +288,12 @@ func runRendezvous(cfg *hx.RunCfg) error {
 				inner.Add(1)
 				go func() {
 					defer inner.Done()
+					// xtcp without secretKey is legal: every other row is punched by a key-less pair (empty key)
 					key := []byte(fmt.Sprintf("secret-%s-%d", pl.name, row.index))
+					if row.index%2 == 0 {
+						key = []byte{}
+						row.keyless = true
+					}
 					t0 := time.Now()
 					vStart, cStart := vAt, cAt
 					for row.attempts = 1; row.attempts <= 3; row.attempts++ {
@@ -344,6 +353,9 @@ func runRendezvous(cfg *hx.RunCfg) error {
 		case r.ok:
 			ran++
 			dist[fmt.Sprintf("mode%d_found_each_other", r.mode)]++
+			if r.keyless {
+				dist["keyless_pairs_found_each_other"]++
+			}
 			if r.attempts > 1 {
 				dist["needed_retry"]++
 			}
@@ -355,8 +367,8 @@ func runRendezvous(cfg *hx.RunCfg) error {
 				key = "rendezvous:one-sided" // one peer believes the hole is made, the other timed out, in all three attempts
 			}
 			fails = append(fails, map[string]string{"key": key,
-				"what": fmt.Sprintf("two honest peers on loopback did not find each other (3 attempts): mode %d, walk position %d of key %s, visitor role %s, max SendDelayMs %d; visitor: %q owner: %q",
-					r.mode, r.index, r.key, r.vRole, r.delay, r.errV, r.errC),
+				"what": fmt.Sprintf("two honest peers on loopback did not find each other (3 attempts): mode %d, walk position %d of key %s, visitor role %s, max SendDelayMs %d, secretKey empty: %v; visitor: %q owner: %q",
+					r.mode, r.index, r.key, r.vRole, r.delay, r.keyless, r.errV, r.errC),
 				"case": fmt.Sprintf("key=%s position=%d mode=%d", r.key, r.index, r.mode)})
 		}
 		if len(samples) < 4 && !r.skipped {
